@@ -264,7 +264,7 @@ type SolverTotals struct {
 	SolverSec                                       float64
 	Steps                                           int64
 	Decides, FastPath, Forks, EnumQueries           int
-	XChecked, XDisagree                             int
+	XChecked, XDisagree, XUnknown                   int
 }
 
 func (s *Session) SolverTotals() SolverTotals {
@@ -285,6 +285,7 @@ func (s *Session) SolverTotals() SolverTotals {
 		t.EnumQueries += w.Stats.EnumQueries
 		t.XChecked += w.Stats.XChecked
 		t.XDisagree += w.Stats.XDisagree
+		t.XUnknown += w.Stats.XUnknown
 	}
 	return t
 }
